@@ -234,6 +234,70 @@ impl Prop for C06 {
 		Ok(())
 	}
 
+	fn enumerate(_tier: Tier, shard: usize, nshards: usize, f: &mut dyn FnMut(Case, bool) -> bool) -> Vec<&'static str> {
+		// bases of every shape x every reference path of <= 3 segments over {a, ., .., ''} in every branch
+		let mut bases: Vec<String> = vec![];
+		for au in ["", "//h", "//"] {
+			for pa in ["", "/", "/a", "/a/", "/a/b", "/a/b/", "/a/../b", "/a/./b/", "//a", "/a//b", "/..", "a", "a/", "a/b", "../a", "a:b/c"] {
+				if !au.is_empty() && !pa.is_empty() && !pa.starts_with('/') {
+					continue;
+				}
+				if au.is_empty() && pa.starts_with("//") {
+					continue;
+				}
+				for q in ["", "?q"] {
+					bases.push(format!("s:{au}{pa}{q}"));
+				}
+			}
+		}
+		let alphabet = ["a", ".", "..", ""];
+		let mut paths: Vec<String> = vec![String::new()];
+		for len in 1..=3usize {
+			for m0 in 0..4usize.pow(len as u32) {
+				let mut m = m0;
+				let mut v = vec![];
+				for _ in 0..len {
+					v.push(alphabet[m % 4]);
+					m /= 4;
+				}
+				paths.push(v.join("/"));
+				paths.push(format!("/{}", v.join("/")));
+			}
+		}
+		paths.sort();
+		paths.dedup();
+		let mut refs: Vec<String> = vec![];
+		for p in &paths {
+			for tail in ["", "?y", "#z"] {
+				// relative / absolute path branches (a relative path must not start with an empty segment or look like a scheme)
+				if !p.starts_with("//") {
+					refs.push(format!("{p}{tail}"));
+				}
+				// authority and scheme branches
+				if p.is_empty() || p.starts_with('/') {
+					refs.push(format!("//g{p}{tail}"));
+				}
+				if !p.starts_with("//") {
+					refs.push(format!("t:{p}{tail}"));
+				}
+			}
+		}
+		let mut i = 0usize;
+		for b in &bases {
+			for r in &refs {
+				i += 1;
+				if i % nshards != shard {
+					continue;
+				}
+				let fam = if i % 2 == 0 { Fam::Uri } else { Fam::Iri };
+				if !f(Case { fam, base: b.clone(), reference: r.clone() }, true) {
+					return vec![];
+				}
+			}
+		}
+		vec!["bases (3 authority forms x 16 path forms x 2 queries) x references (all paths of <= 3 segments over {a, ., .., ''}, relative and absolute, in the path / authority / scheme branches, with query or fragment)"]
+	}
+
 	fn floors(_tier: Tier) -> Vec<(&'static str, u64)> {
 		vec![
 			("judged", 200_000),
